@@ -59,6 +59,14 @@ class World:
                     pass
         finally:
             seams.end_run()
+            # process-wide caches inside aiohttp would keep whole simulated worlds alive
+            try:
+                import sys as _sys
+                wa = _sys.modules.get("aiohttp.web_app")
+                if wa is not None:
+                    wa._cached_build_middleware.cache_clear()
+            except Exception:
+                pass
             gc.enable()
         return False
 
